@@ -123,7 +123,6 @@ def cliCfg (s : String) : Option CliCfg := do
   let hd ← pairList ((fget fs "hd").getD "_")
   let org ← hx ((fget fs "o").getD "-")
   let ps ← hexList ((fget fs "p").getD "_")
-  let fps ← hexList ((fget fs "fp").getD ((fget fs "p").getD "_"))
   let offers ← hexList ((fget fs "of").getD "_")
   pure { host := host
          port := ((fget fs "pt").bind (·.toNat?)).getD 80
@@ -132,7 +131,6 @@ def cliCfg (s : String) : Option CliCfg := do
          headers := hd
          origin := org
          protocols := ps
-         factoryProtocols := fps
          version := ((fget fs "v").bind (·.toNat?)).getD 18
          offers := offers
          accept := if (fget fs "ac").getD "0" = "1" then .acceptAll else .denyAll }
